@@ -27,7 +27,7 @@ LEVEL_TEXT = {
     "C07": "Theorems C07_frames_wf / C07_C08_bytes / tile_bytes / frame_length / C07_empty: for every encoder state, every batch (payloads 0..65535 bytes) and every configuration with 25 <= max, min <= max, an independent byte-level tiler succeeds on every serialised frame and the decidable predicate P_C07 holds (min <= len <= max, >= 1 message, declared lengths tile the frame, zero padding only up to min, every payload byte exactly once and in order, no frames for an empty batch). Fold invariant over the batch, no bound on sizes. The same P_C07 is evaluated by the Lean driver on the frames the real encoder produced for every generated case.",
     "C08": "Theorem C08_seg_rules (+ C07_C08_bytes on bytes): P_C08 holds for every batch of payloads of 1..65535 bytes and every valid configuration: split iff 16+len exceeds an empty frame, flags first/intermediary*/last, every non-last segment full, a segment alone in its frame, message type of every message = frame header's, batch order, and greedy fill (an unsegmented message starts a new frame of the same type only if it did not fit). P_C08 is also evaluated on the real encoder's frames.",
     "C05": "Theorems reassemble_single / reassemble_many / C05_interleaved on the decoder's reassembly automaton: for any prior state, any number of segments of any sizes (0 allowed), counters mod 65536 incl. the wrap, the message is delivered exactly once at its last frame with the first segment's header, version and type and the concatenated declared bytes (total <= 65535); lifted to any interleaving with arbitrary traffic of other endpoints by the non-interference theorem run_filter. On bytes: segFrame_parse (a segment frame laid out from the protocol table with ANY trailing bytes parses to exactly header + declared bytes) and C05_bytes_single (frames on the wire, consecutive counters from any start incl. the wrap, any trailing bytes, any decoder state: nothing before the last frame, then exactly one packet with create(type, concatenated declared bytes) and the first segment's fields). Tied to the code by feeding table-built interleavings to the real decoder and comparing every call's output; the predicate (expected packet per last segment, nothing before) is evaluated on the implementation's output.",
-    "C06": "Theorems fault_safe / C06_no_corruption(_interleaved): whatever sub-multiset and order of the sent frames arrives (drop, duplicate, reorder are one quantifier) and whichever segment copies carry a wrong version/type (side condition: different segments of one message are not corrupted to the same wrong pair - without it the statement is false of any decoder), every delivered packet is one that was sent; fault_recovery / fault_recovery_unseg: from ANY state, a message arriving complete, in order, uninterrupted is delivered. Invariant proof over the arrived list, stream length < 65536. Tied to the code by fault scripts over real encoder output fed to the real decoder.",
+    "C06": "Theorems fault_safe / C06_no_corruption(_interleaved): whatever sub-multiset and order of the sent frames arrives (drop, duplicate, reorder are one quantifier) and whichever segment copies carry a wrong version/type (side condition: different segments of one message are not corrupted to the same wrong pair - without it the statement is false of any decoder), every delivered packet is one that was sent; fault_recovery / fault_recovery_unseg: from ANY state, a message arriving complete, in order, uninterrupted is delivered. Invariant proof over the arrived list, stream length < 65536. END TO END on bytes (C06b.C06_bytes): for EVERY encoder state, batch of well-formed packets and configuration, ANY list of copies of the encoder model's serialised frames (any subset, order, multiplicity; copies of segment frames with any version byte 1..255 and any type byte), decoded from the empty decoder model, yields only packets of the batch - the abstract sent stream is constructed from the encoder's real output. Tied to the code by fault scripts over real encoder output fed to the real decoder.",
     "C17": "Theorems localStep_refines / C17_pending_iff_open / C17_pending_bytes / C17_idle_empty / C17_support / C17_release / C17_last_releases: the pending table refines a buffer-free specification automaton (a message is in progress after a first segment and while matching intermediary segments arrive alone in their frame); pending bytes <= 16 + segment bytes of the open message; no open message => empty table; TECMP/short/null buffers leave it untouched. All histories, by induction; C17_bytes restates it for histories of raw buffers (decodeAll). Tied to the code by reading the real decoder's private table (-fno-access-control, no source hook) after every frame of exhaustive and random histories.",
     "C18": "Theorems run_filter / C18_isolation / decode_foreign_state / decode_other_endpoint / delivered_tagged: for every history of arbitrary buffers the packets and the state of endpoint e equal those of the history projected to e; TECMP, short and null buffers change no state. Induction over the history, arbitrary parsed frames. Tied to the code by running histories and their per-endpoint projections on separate real decoders.",
     "C09": "Theorems C09_encode / C09_config / C09_headers: for every history of setDevice/setStream/restart/encode calls on the encoder model every frame carries the configured ids, the message type of its messages, the batch version, and counters consecutive mod 65536 restarting at 1 after a reset; the reported counter is the last frame's. Proved by induction over the history with a fold invariant, no bound on history or batch. The model is tied to the code by the correspondence stream (exhaustive short histories, random long ones, a >65536-frame history).",
@@ -87,8 +87,9 @@ reg(Spec("C05", "Segmented messages reassemble under any interleaving", ["AsamCm
          ["AsamCmp.expected_payload", "AsamCmp.reassemble_single", "AsamCmp.reassemble_many", "AsamCmp.C05_interleaved", "AsamCmp.run_filter",
           "AsamCmp.C05b.segFrame_parse", "AsamCmp.C05b.C05_bytes_single", "AsamCmp.C05b.decodeAll_state"], ["AsamCmp.Props.C05", "AsamCmp.Props.C05b"], gen_dec.gen_c05, predicate=gen_dec.pred_c05,
          rule="1..4 endpoints sharing device or stream ids, 2..6 segments of sizes {0,1,odd,max}, start counters incl. 65534/65535, trailing bytes, seeded order-preserving shuffles; all interleavings of two 3-frame streams"))
-reg(Spec("C06", "Loss, duplication or reordering never yields a corrupted packet", ["AsamCmp.Props.C06"],
-         ["AsamCmp.fault_safe", "AsamCmp.C06_no_corruption", "AsamCmp.fault_recovery", "AsamCmp.fault_recovery_unseg", "AsamCmp.C06_no_corruption_interleaved", "AsamCmp.C06Example.nonvacuous"], ["AsamCmp.Props.C06"], gen_dec.gen_c06, predicate=gen_dec.pred_c06,
+reg(Spec("C06", "Loss, duplication or reordering never yields a corrupted packet", ["AsamCmp.Props.C06", "AsamCmp.Props.C06b"],
+         ["AsamCmp.fault_safe", "AsamCmp.C06_no_corruption", "AsamCmp.fault_recovery", "AsamCmp.fault_recovery_unseg", "AsamCmp.C06_no_corruption_interleaved", "AsamCmp.C06Example.nonvacuous",
+          "AsamCmp.C06b.C06_bytes", "AsamCmp.C06b.C06_recovery_bytes"], ["AsamCmp.Props.C06", "AsamCmp.Props.C06b"], gen_dec.gen_c06, predicate=gen_dec.pred_c06,
          view=lambda c, l: l[-3:],
          rule="encoder output under fault scripts: single faults (drop/dup/swap/corrupt version/corrupt type) and random fault sequences, clean tail for recovery"))
 reg(Spec("C15", "TECMP messages convert to equivalent ASAM CMP packets", ["AsamCmp.Props.C15"],
